@@ -11,6 +11,7 @@
   finished (`log_is_snapshot`).
 -/
 import Sio.Lemmas.Simple
+import Sio.Lemmas.SimpleAsync
 namespace Sio.C19
 open Sio.Simple
 
@@ -36,7 +37,7 @@ theorem log_is_snapshot (s : State) (c : Choice) :
   | cons ok =>
     simp only [step, consStep]
     split
-    case h_9 =>
+    case h_10 =>
       split
       · right; exact ⟨_, rfl⟩
       · right; exact ⟨_, rfl⟩
@@ -270,62 +271,89 @@ example : let s := run init C19.timeoutWitness
 /-! ## DisconnectedError -/
 
 /-
-  FULL STATEMENT (false for this version of the code, see `disconnected_full_statement_fails`):
+  `receive()` after the repair of the recorded finding `disconnected-before-drain`:
 
-    theorem disconnected_after_drain (sched) (v) :
-        (Outcome.disconnectedErr, v) ∈ (run init sched).log → v.pc = .r2 → v.buf = [] ∧ v.ended = true
+      if not self.connected:            -- r2
+          if self.input_buffer:         -- r2b   events that arrived before the end are returned first
+              break
+          raise DisconnectedError()
 
-  `ended` always holds; `buf = []` fails when an event arrives between the empty-buffer test and the
-  read of `self.connected`.
+  "The connection has ended for good" is the ghost `ended` (the last connect / __disconnect_final
+  handler started is `__disconnect_final`; together with `fresh = false`: some handler ran at all).
+  The read of `self.connected` and the test of the buffer are two accesses, and the schedules of the
+  model are NOT restricted to those in which an end "for good" is final: a connect handler may start
+  after `__disconnect_final`, also between those two accesses (`revived`).  The statement therefore
+  says: the connection had ended for good when `self.connected` was read (`endedRd`), and it still has
+  in the raising state unless a connect handler has started after a final one.
 -/
 
-/-- DisconnectedError (from receive, emit or call) is raised only after `__disconnect_final` (the
-    last connect/final handler started is `final`, and some handler ran at all). For `receive()`:
-    every event that had arrived when it last tested the buffer has been returned, and if none has
-    arrived since that test the buffer is empty. -/
-theorem disconnected_after_drain_partial (sched : List Choice) (v : View)
+/-- DisconnectedError (from receive, emit or call) is raised only after `__disconnect_final`, in
+    EVERY schedule; from `receive()` only in a state in which the buffer is empty and every event
+    that has arrived — signalled or not — has been returned (no arrival is available). -/
+theorem disconnected_after_drain (sched : List Choice) (v : View)
     (h : (Outcome.disconnectedErr, v) ∈ (run init sched).log) :
-    v.ended = true ∧ v.conn = false ∧ v.fresh = false ∧ (v.pc = .r2 ∨ v.pc = .e2) ∧
-    (v.pc = .r2 → v.returnedN = v.seen ∧ v.seen ≤ v.arrivedN ∧ (v.arrivedN = v.seen → v.buf = [])) := by
+    (v.pc = .r2b ∨ v.pc = .e2) ∧ v.fresh = false ∧
+    (v.conn = false → v.ended = true) ∧
+    (v.revived = false → v.ended = true ∧ v.conn = false) ∧
+    (v.pc = .e2 → v.ended = true ∧ v.conn = false) ∧
+    (v.pc = .r2b →
+      v.endedRd = true ∧ v.buf = [] ∧ v.returnedN = v.arrivedN ∧ available v = 0) := by
   have := (inv_reach sched).logOK _ h
   simp only [Good] at this
   obtain ⟨h1, h2, h3, h4⟩ := this
-  refine ⟨h1, h2, h3, ?_, ?_⟩
-  · rcases h4 with ⟨a, _⟩ | a
+  refine ⟨?_, h1, h2, h3, ?_, ?_⟩
+  · rcases h4 with ⟨a, _⟩ | ⟨a, _⟩
     · left; exact a
     · right; exact a
   · intro hpc
-    rcases h4 with ⟨_, b, c, d⟩ | a
-    · refine ⟨b, c, ?_⟩
-      intro he
-      have : v.buf.length = 0 := by omega
-      exact List.length_eq_zero_iff.mp this
+    rcases h4 with ⟨a, _⟩ | ⟨_, b, c⟩
+    · rw [hpc] at a; cases a
+    · exact ⟨b, c⟩
+  · intro hpc
+    rcases h4 with ⟨_, b, c, d, e⟩ | ⟨a, _⟩
+    · exact ⟨e, b, c, by simp only [available]; omega⟩
     · rw [hpc] at a; cases a
 
-/-- non-vacuity: DisconnectedError from receive() with everything drained (r2) and from emit() (e2). -/
+/-- the clause of the property, literally: in every schedule in which the end of the connection is
+    for good (no connect handler starts after a `__disconnect_final` handler), DisconnectedError is
+    raised only in a state where the connection has ended for good and — for `receive()` — every
+    arrived event has been returned. -/
+theorem disconnected_after_drain_for_good (sched : List Choice) (v : View)
+    (h : (Outcome.disconnectedErr, v) ∈ (run init sched).log) (hg : v.revived = false) :
+    v.ended = true ∧ v.conn = false ∧
+    (v.pc = .r2b → v.buf = [] ∧ v.returnedN = v.arrivedN ∧ available v = 0) := by
+  obtain ⟨_, _, _, h4, _, h6⟩ := disconnected_after_drain sched v h
+  exact ⟨(h4 hg).1, (h4 hg).2, fun hpc => (h6 hpc).2⟩
+
+/-- non-vacuity: DisconnectedError from receive() with everything drained (r2b) and from emit() (e2),
+    in a schedule where the end is for good. -/
 example : ((run init [.conn .connect, .conn .connect, .conn .disconnect, .conn .final, .conn .final,
-    .start (.recv false), .cons true, .cons true, .cons true, .start .send, .cons true, .cons true]).log.map
-    (fun e => (e.1, e.2.pc, e.2.buf))) = [(.disconnectedErr, .r2, []), (.disconnectedErr, .e2, [])] := by decide
+    .start (.recv false), .cons true, .cons true, .cons true, .cons true, .start .send, .cons true,
+    .cons true]).log.map (fun e => (e.1, e.2.pc, e.2.buf, e.2.ended, e.2.revived))) =
+      [(.disconnectedErr, .r2b, [], true, false), (.disconnectedErr, .e2, [], true, false)] := by decide
 
-/-- the schedule reported in KNOWN_FINDINGS (disconnected-before-drain). -/
-def disconnectedWitness : List Choice :=
+/-- the schedule of the former finding `disconnected-before-drain` (the event arrives between the
+    empty-buffer test and the end of the connection), continued: -/
+def lateArrival : List Choice :=
   [.conn .connect, .conn .connect, .start (.recv false), .cons true, .prod, .prod,
-   .conn .disconnect, .conn .final, .conn .final, .cons true, .cons true]
+   .conn .disconnect, .conn .final, .conn .final, .cons true, .cons true, .cons true, .cons true,
+   .start (.recv false), .cons true, .cons true, .cons true, .cons true]
 
-theorem disconnected_full_statement_fails :
-    ¬ ∀ (sched : List Choice) (v : View),
-        (Outcome.disconnectedErr, v) ∈ (run init sched).log → v.pc = .r2 → v.buf = [] ∧ v.ended = true := by
-  intro h
-  have hall : ((run init disconnectedWitness).log.all
-      fun e => e.1 != .disconnectedErr || e.2.pc != .r2 || decide (e.2.buf = [] ∧ e.2.ended = true)) = true := by
-    rw [List.all_eq_true]; intro ⟨o, v⟩ he
-    by_cases ho : o = .disconnectedErr
-    · subst ho
-      by_cases hp : v.pc = .r2
-      · simp [h disconnectedWitness v he hp]
-      · simp [hp]
-    · simp [ho]
-  revert hall; decide
+/-- non-vacuity: … `receive()` reads `connected = False` (r2) with the event buffered and signalled,
+    returns it, and the next `receive()` raises DisconnectedError from the drained buffer. -/
+example :
+    (let s := run init (lateArrival.take 11)
+     s.cpc = .r2b ∧ s.conn = false ∧ s.ended = true ∧ s.buf = [0] ∧ s.signalled = 1 ∧ s.returned = []) ∧
+    (run init lateArrival).log.map (fun e => (e.1, e.2.pc, e.2.buf, e.2.returnedN)) =
+      [(.returned 0, .r5, [0], 0), (.disconnectedErr, .r2b, [], 1)] := by decide
+
+/-- why `revived` is in the statement: a connect handler that starts between the read of
+    `self.connected` and the test of the buffer is the only way `ended` is false in the raising state
+    (the connection HAD ended for good when `connected` was read). -/
+example : ((run init [.conn .connect, .conn .connect, .conn .final, .conn .final, .start (.recv false),
+    .cons true, .cons true, .cons true, .conn .connect, .cons true]).log.map
+    (fun e => (e.1, e.2.pc, e.2.ended, e.2.endedRd, e.2.revived))) =
+      [(.disconnectedErr, .r2b, false, true, true)] := by decide
 
 /-! ## emit() / call() -/
 
@@ -334,7 +362,7 @@ theorem disconnected_full_statement_fails :
 theorem emit_waits (sched : List Choice) (o : Outcome) (v : View)
     (h : (o, v) ∈ (run init sched).log) :
     (o = .sent → v.pc = .e3) ∧
-    (o = .disconnectedErr → v.ended = true ∧ v.conn = false) ∧
+    (o = .disconnectedErr → v.pc ≠ .r2b → v.pc = .e2 ∧ v.ended = true ∧ v.conn = false) ∧
     (o = .timeoutErr → v.pc = .r1w ∨ v.pc = .r3w) ∧
     (v.pc = .e1 ∨ v.pc = .e1w ∨ v.pc = .e2 ∨ v.pc = .e3 → o = .sent ∨ (o = .disconnectedErr ∧ v.ended = true)) := by
   have hg := (inv_reach sched).logOK _ h
@@ -348,7 +376,13 @@ theorem emit_waits (sched : List Choice) (o : Outcome) (v : View)
       · left; exact a
     · intro hp
       rcases hg.2.2 with ⟨a, _⟩ | ⟨a, _⟩ <;> (rw [a] at hp; simp at hp)
-  · exact ⟨by simp, fun _ => ⟨hg.1, hg.2.1⟩, by simp, fun _ => Or.inr ⟨rfl, hg.1⟩⟩
+  · refine ⟨by simp, fun _ hne => ?_, by simp, fun hp => Or.inr ⟨rfl, ?_⟩⟩
+    · rcases hg.2.2.2 with ⟨a, _⟩ | a
+      · exact absurd a hne
+      · exact a
+    · rcases hg.2.2.2 with ⟨a, _⟩ | ⟨_, b, _⟩
+      · rw [a] at hp; simp at hp
+      · exact b
 
 /-- non-vacuity: emit() during a reconnection: refused once by the client, parked, released by the
     connect handler, accepted. -/
@@ -425,7 +459,8 @@ theorem deadlock_characterised (sched : List Choice) :
       · simp [consStep, hc, hw] at hc1
     case r0 => cases hb : s.buf <;> simp [consStep, hc, hb] at hc1
     case r1 => simp [consStep, hc, hcev] at hc1
-    case r2 => simp [consStep, hc, hconn, finish] at hc1
+    case r2 => simp [consStep, hc, hconn] at hc1
+    case r2b => cases hb : s.buf <;> simp [consStep, hc, hb, finish] at hc1
     case r3 => cases hv : s.iev <;> simp [consStep, hc, hv] at hc1
     case r4 => simp [consStep, hc] at hc1
     case r5 => cases hb : s.buf <;> simp [consStep, hc, hb, finish] at hc1
@@ -489,29 +524,58 @@ theorem timeout_only_when_unsignalled_partial_async (asched : List Choice) (v : 
   async_transfer (fun s => (Outcome.timeoutErr, v) ∈ s.log → _)
     (fun sched => timeout_only_when_unsignalled_partial sched v) asched h
 
-theorem disconnected_after_drain_partial_async (asched : List Choice) (v : View)
+theorem disconnected_after_drain_async (asched : List Choice) (v : View)
     (h : (Outcome.disconnectedErr, v) ∈ (Async.run init asched).log) :
-    v.ended = true ∧ v.conn = false ∧ v.fresh = false ∧ (v.pc = .r2 ∨ v.pc = .e2) ∧
-    (v.pc = .r2 → v.returnedN = v.seen ∧ v.seen ≤ v.arrivedN ∧ (v.arrivedN = v.seen → v.buf = [])) :=
+    (v.pc = .r2b ∨ v.pc = .e2) ∧ v.fresh = false ∧
+    (v.conn = false → v.ended = true) ∧
+    (v.revived = false → v.ended = true ∧ v.conn = false) ∧
+    (v.pc = .e2 → v.ended = true ∧ v.conn = false) ∧
+    (v.pc = .r2b →
+      v.endedRd = true ∧ v.buf = [] ∧ v.returnedN = v.arrivedN ∧ available v = 0) :=
   async_transfer (fun s => (Outcome.disconnectedErr, v) ∈ s.log → _)
-    (fun sched => disconnected_after_drain_partial sched v) asched h
+    (fun sched => disconnected_after_drain sched v) asched h
+
+/-- in the asyncio variant the read of `self.connected` and the test of the buffer are in one block
+    (no await between them), so the clause holds literally in EVERY schedule, with no hypothesis on
+    the environment: DisconnectedError is raised only in a state in which the connection has ended
+    for good and — for `receive()` — every arrived event has been returned. -/
+theorem disconnected_after_drain_async_literal (asched : List Choice) (v : View)
+    (h : (Outcome.disconnectedErr, v) ∈ (Async.run init asched).log) :
+    v.ended = true ∧ v.conn = false ∧
+    (v.pc = .r2b → v.buf = [] ∧ v.returnedN = v.arrivedN ∧ available v = 0) := by
+  obtain ⟨h1, _, h3, _, h5, h6⟩ := disconnected_after_drain_async asched v h
+  have hconn : v.conn = false := by
+    rcases h1 with hp | hp
+    · exact (ard_areach asched).1 _ h rfl hp
+    · exact (h5 hp).2
+  exact ⟨h3 hconn, hconn, fun hpc => (h6 hpc).2⟩
 
 theorem emit_waits_async (asched : List Choice) (o : Outcome) (v : View)
     (h : (o, v) ∈ (Async.run init asched).log) :
     (o = .sent → v.pc = .e3) ∧
-    (o = .disconnectedErr → v.ended = true ∧ v.conn = false) ∧
+    (o = .disconnectedErr → v.pc ≠ .r2b → v.pc = .e2 ∧ v.ended = true ∧ v.conn = false) ∧
     (o = .timeoutErr → v.pc = .r1w ∨ v.pc = .r3w) ∧
     (v.pc = .e1 ∨ v.pc = .e1w ∨ v.pc = .e2 ∨ v.pc = .e3 → o = .sent ∨ (o = .disconnectedErr ∧ v.ended = true)) :=
   async_transfer (fun s => (o, v) ∈ s.log → _) (fun sched => emit_waits sched o v) asched h
 
-/-- the asyncio counterparts of the two witnesses need the event handler to run after the
-    disconnect handler (the only way an arrival can fall between the buffer test and the wait when
-    the consumer yields only at real suspensions). -/
+/-- the asyncio counterpart of the witness needs the event handler to run after the disconnect
+    handler (the only way an arrival can fall between the buffer test and the wait when the consumer
+    yields only at real suspensions). -/
 def timeoutWitnessAsync : List Choice :=
   [.conn .connect, .conn .disconnect, .start (.recv true), .cons true, .prod, .timeout]
 
-def disconnectedWitnessAsync : List Choice :=
-  [.conn .connect, .conn .disconnect, .start (.recv false), .cons true, .prod, .conn .final, .cons true]
+/-- non-vacuity (asyncio) of `disconnected_after_drain_async`, on the schedule of the former finding:
+    receive() parks on connected_event (reconnecting), the event arrives, the connection ends for
+    good; the resumed receive() returns the event, the next one raises DisconnectedError. -/
+def lateArrivalAsync : List Choice :=
+  [.conn .connect, .conn .disconnect, .start (.recv false), .cons true, .prod, .conn .final, .cons true,
+   .start (.recv false), .cons true]
+
+example :
+    (let s := Async.run init (lateArrivalAsync.take 6)
+     s.cpc = .r1w ∧ s.woken = true ∧ s.conn = false ∧ s.ended = true ∧ s.buf = [0] ∧ s.signalled = 1) ∧
+    (Async.run init lateArrivalAsync).log.map (fun e => (e.1, e.2.pc, e.2.buf, e.2.returnedN, e.2.ended)) =
+      [(.returned 0, .r5, [0], 0, true), (.disconnectedErr, .r2b, [], 1, true)] := by decide
 
 theorem timeout_full_statement_fails_async :
     ¬ ∀ (asched : List Choice) (v : View),
@@ -522,21 +586,6 @@ theorem timeout_full_statement_fails_async :
     rw [List.all_eq_true]; intro ⟨o, v⟩ he
     by_cases ho : o = .timeoutErr
     · subst ho; simp [h timeoutWitnessAsync v he]
-    · simp [ho]
-  revert hall; decide
-
-theorem disconnected_full_statement_fails_async :
-    ¬ ∀ (asched : List Choice) (v : View),
-        (Outcome.disconnectedErr, v) ∈ (Async.run init asched).log → v.pc = .r2 → v.buf = [] ∧ v.ended = true := by
-  intro h
-  have hall : ((Async.run init disconnectedWitnessAsync).log.all
-      fun e => e.1 != .disconnectedErr || e.2.pc != .r2 || decide (e.2.buf = [] ∧ e.2.ended = true)) = true := by
-    rw [List.all_eq_true]; intro ⟨o, v⟩ he
-    by_cases ho : o = .disconnectedErr
-    · subst ho
-      by_cases hp : v.pc = .r2
-      · simp [h disconnectedWitnessAsync v he hp]
-      · simp [hp]
     · simp [ho]
   revert hall; decide
 
